@@ -14,7 +14,7 @@ RULE = ('Typed predicates and expressions with the current message and a message
         'valuation grids; the replacements by evaluating the result with the variable bound to the message; the '
         'inverse law by snapshot equality; events `t as A {f}` against `t {f[@A:=this]}`. Non-trivial = >= 1 replaced '
         'occurrence at depth >= 2 (or a compound predicate for negate/join); distinct = shape x operation.')
-RULE_ADDED = ' Since the seeding rounds: replacements on atomic expressions; histories through but(); joins of related comparisons (same two operands, every pair of relational operators, same and mirrored order, negations) on valuations with the operands <, = and > each other.'
+RULE_ADDED = ' Since the seeding rounds: replacements on atomic expressions; histories through but(); joins of related comparisons (same two operands, every pair of relational operators, same and mirrored order, negations) on valuations with the operands <, = and > each other; closed comparisons over NAN/INF judged through the library\'s own constant folder.'
 ASSUMPTIONS = ['reference evaluator of DESIGN.md 4.1', 'aliases are never captured by a quantifier of the same name; '
                'bare @A at a primitive type and join of predicates with clashing shared references are not judged']
 FLOORS = {
@@ -175,6 +175,56 @@ def run(ctx):
                             _join_check(ctx, on[1], oq[1], oj[1], grid_envs, f'not ({tp})', tq, feats, viol)
                         else:
                             viol('join-raises', {'p': f'not ({tp})', 'q': tq, 'error': type(oj[1]).__name__}, feats)
+
+    # closed comparisons over non-finite constants: my evaluator leaves NAN/INF undefined, the library folds them the
+    # IEEE way; here the library's own constant folder is the evaluator, and negate/join must be complement/conjunction
+    # under it (self-consistency: whatever truth value p folds to, negate(p) must fold to the other one)
+    if ctx.shard == 0:
+        from hpl.parser import parse_predicate
+        from hpl.rewrite import simplify as _simplify
+
+        def truth(pred):
+            o = hplapi.outcome(_simplify, pred)
+            if o[0] != 'ok':
+                return None
+            name = type(o[1]).__name__
+            return True if name == 'HplVacuousTruth' else (False if name == 'HplContradiction' else None)
+        consts = ('NAN', 'INF', '-INF', '0', '1', '-1')
+        closed = []
+        for a in consts:
+            for b in consts:
+                for op in RELOPS:
+                    closed.append(f'{a} {op} {b}')
+        feats = {'api:negate', 'shape:closed-non-finite'}
+        prev = None
+        for t in closed:
+            op_ = hplapi.outcome(parse_predicate, '{ ' + t + ' }')
+            if op_[0] != 'ok':
+                continue
+            pr = op_[1]
+            tv = truth(pr)
+            if tv is None:
+                continue
+            ctx.begin_case(feats)
+            on = hplapi.outcome(pr.negate)
+            ctx.evaluation('closed|' + t, True)
+            ctx.count('closed_non_finite_judged')
+            if on[0] != 'ok':
+                viol('negate-raises', {'input': t, 'error': type(on[1]).__name__}, feats)
+            else:
+                tn = truth(on[1])
+                if tn is not None and tn is not (not tv):
+                    viol('negate-value', {'input': '{ ' + t + ' }', 'negated': str(on[1])[:120], 'input_folds_to': tv,
+                                          'negation_folds_to': tn, 'evaluator': "the library's constant folder"}, feats)
+            if prev is not None:
+                oj = hplapi.outcome(pr.join, prev[0])
+                if oj[0] == 'ok':
+                    tj = truth(oj[1])
+                    if tj is not None and tj is not (tv and prev[1]):
+                        viol('join-value', {'p': t, 'q': prev[2], 'joined': str(oj[1])[:120], 'p_value': tv, 'q_value': prev[1],
+                                            'joined_value': tj, 'evaluator': "the library's constant folder"},
+                             {'api:join', 'shape:closed-non-finite'})
+            prev = (pr, tv, t)
 
     for n in range(ctx.share(B['n'])):
         # ---------------- negate / join on predicates ------------------------------------------
